@@ -99,6 +99,9 @@ class _SelfPassing(Normalizer):
         sn = fn.self_name
         if sn is None:
             return None
+        t = self._const_dispatch(fn, call, sn)
+        if t is not None:
+            return t
         passed = [a for a in call.args if isinstance(a, ast.Name) and a.id == sn] + [k.value for k in call.keywords if isinstance(k.value, ast.Name) and k.value.id == sn]
         if not passed:
             return None
@@ -124,6 +127,110 @@ class _SelfPassing(Normalizer):
         if any(isinstance(x, (ast.Yield, ast.YieldFrom, ast.Global, ast.Nonlocal, ast.FunctionDef, ast.Lambda)) for st in target.node.body for x in ast.walk(st)):
             return None
         return target
+
+
+def _computed_field_access(fn_node) -> bool:
+    """the function reaches attributes of an object by a name it computes: getattr / setattr / delattr whose name is not a literal"""
+    for c in ast.walk(fn_node):
+        if isinstance(c, ast.Call) and isinstance(c.func, ast.Name) and c.func.id in ("getattr", "setattr", "delattr", "hasattr") and len(c.args) >= 2 \
+                and not isinstance(c.args[1], ast.Constant):
+            return True
+    return False
+
+
+def _const_dispatch(self, fn, call, sn):
+    """`self.m(.., "u", ..)`: a method of the class that builds attribute names from a parameter, called with a literal for it — e.g. the
+    per-axis siblings collapsed onto `_set_delimiters(axis, value)`.  Expanded in place (the literal bound to the parameter), after which
+    the computed names fold to literals and the stores / reads are ordinary field accesses again."""
+    f = call.func
+    if not (isinstance(f, ast.Attribute) and isinstance(f.value, ast.Name) and f.value.id in (sn, "self", "cls") and fn.cls is not None):
+        return None
+    if not any(isinstance(a, ast.Constant) and isinstance(a.value, str) for a in list(call.args) + [k.value for k in call.keywords]):
+        return None
+    m = fn.cls.lookup(f.attr)
+    target = m[2] if m and m[1] == "method" else None
+    if target is None or target.node is fn.node or not _computed_field_access(target.node):
+        return None
+    for sub in self.p.subclasses(fn.cls, strict=True):
+        if sub.own(f.attr) is not None:
+            return None
+    a = target.node.args
+    if a.vararg or a.kwarg or any(isinstance(x, ast.Starred) for x in call.args) or any(k.arg is None for k in call.keywords):
+        return None
+    if any(ast.unparse(d) not in ("staticmethod", "classmethod") for d in target.node.decorator_list):
+        return None
+    if any(isinstance(x, (ast.Yield, ast.YieldFrom, ast.Global, ast.Nonlocal, ast.FunctionDef, ast.Lambda)) for st in target.node.body for x in ast.walk(st)):
+        return None
+    return target
+
+
+_SelfPassing._const_dispatch = _const_dispatch
+
+
+def _fold_names(node, sn):
+    """Literal propagation for computed attribute names: locals bound once to a string literal are replaced by it, f-strings / `+` of
+    literals become literals, and `setattr(self, "<name>", v)` / `getattr(self, "<name>")` with a literal identifier become `self.<name> = v` /
+    `self.<name>`."""
+    for _round in range(4):
+        consts = {k: v for k, v in single_assignments(node).items() if isinstance(v, ast.Constant) and isinstance(v.value, str)}
+        changed = [False]
+
+        class F(ast.NodeTransformer):
+            def visit_Name(self, n):
+                if isinstance(n.ctx, ast.Load) and n.id in consts:
+                    changed[0] = True
+                    return ast.copy_location(ast.Constant(value=consts[n.id].value), n)
+                return n
+
+            def visit_JoinedStr(self, n):
+                self.generic_visit(n)
+                parts = []
+                for v in n.values:
+                    if isinstance(v, ast.Constant) and isinstance(v.value, str):
+                        parts.append(v.value)
+                    elif isinstance(v, ast.FormattedValue) and v.conversion == -1 and v.format_spec is None and isinstance(v.value, ast.Constant) and isinstance(v.value.value, str):
+                        parts.append(v.value.value)
+                    else:
+                        return n
+                changed[0] = True
+                return ast.copy_location(ast.Constant(value="".join(parts)), n)
+
+            def visit_BinOp(self, n):
+                self.generic_visit(n)
+                if isinstance(n.op, ast.Add) and all(isinstance(x, ast.Constant) and isinstance(x.value, str) for x in (n.left, n.right)):
+                    changed[0] = True
+                    return ast.copy_location(ast.Constant(value=n.left.value + n.right.value), n)
+                return n
+
+        node = F().visit(node)
+        if not changed[0]:
+            break
+
+    def literal_field(c, nargs):
+        return isinstance(c, ast.Call) and isinstance(c.func, ast.Name) and len(c.args) == nargs and not c.keywords and isinstance(c.args[0], ast.Name) \
+            and c.args[0].id == sn and isinstance(c.args[1], ast.Constant) and isinstance(c.args[1].value, str) and c.args[1].value.isidentifier()
+
+    class A(ast.NodeTransformer):
+        def visit_Expr(self, n):
+            self.generic_visit(n)
+            c = n.value
+            if literal_field(c, 3) and c.func.id == "setattr":
+                tgt = ast.Attribute(value=ast.Name(id=sn, ctx=ast.Load()), attr=c.args[1].value, ctx=ast.Store())
+                return ast.copy_location(ast.Assign(targets=[tgt], value=c.args[2], lineno=n.lineno), n)
+            if literal_field(c, 2) and c.func.id == "delattr":
+                tgt = ast.Attribute(value=ast.Name(id=sn, ctx=ast.Load()), attr=c.args[1].value, ctx=ast.Del())
+                return ast.copy_location(ast.Delete(targets=[tgt]), n)
+            return n
+
+        def visit_Call(self, n):
+            self.generic_visit(n)
+            if literal_field(n, 2) and n.func.id == "getattr":
+                return ast.copy_location(ast.Attribute(value=ast.Name(id=sn, ctx=ast.Load()), attr=n.args[1].value, ctx=ast.Load()), n)
+            return n
+
+    node = A().visit(node)
+    ast.fix_missing_locations(node)
+    return node
 
 
 def use_project(project):
@@ -157,7 +264,15 @@ def canonical(fn):
         _NORM[key] = (fn.node, fn)
         return fn
     def passes_self(nd):
-        return any(isinstance(x, ast.Name) and x.id == sn for c in ast.walk(nd) if isinstance(c, ast.Call) for x in list(c.args) + [k.value for k in c.keywords])
+        for c in ast.walk(nd):
+            if isinstance(c, ast.Call):
+                args = list(c.args) + [k.value for k in c.keywords]
+                if any(isinstance(x, ast.Name) and x.id == sn for x in args):
+                    return True
+                if isinstance(c.func, ast.Attribute) and isinstance(c.func.value, ast.Name) and c.func.value.id == sn \
+                        and any(isinstance(x, ast.Constant) and isinstance(x.value, str) for x in args):
+                    return True  # maybe a literal handed to a helper that computes field names from it
+        return False
 
     node = copy.deepcopy(fn.node)
     for _round in range(3):  # a helper handing the object on to another helper: one level per round, the parameter un-aliased in between
@@ -168,16 +283,49 @@ def canonical(fn):
             new = _EXPANDER[0].view(replace(fn, node=node), inline=True, consts=False).node
         except Exception:  # an expansion that cannot be done leaves the function as it is
             break
-        new = _unalias_self(new, sn)
+        new = _fold_names(_unalias_self(new, sn), sn)
         if ast.dump(new) == ast.dump(node):
             break
         node = new
-    node = _unalias_self(node, sn)
+    node = _fold_names(_unalias_self(node, sn), sn)
     node.body = _block(node.body, sn)
     ast.fix_missing_locations(node)
     new = replace(fn, node=node)
     _NORM[key] = (fn.node, new)
     return new
+
+
+def deps(K, getter, cache_field: str, _seen=None) -> set:
+    """sa.cache.deps (backing fields transitively read by `getter` on class K) on the canonical bodies: a field reached through a helper
+    that computes its name from a literal argument counts as what it is."""
+    from ..cache import NOT_FOLLOWED
+
+    seen = _seen if _seen is not None else set()
+    out: set = set()
+    if getter in seen:
+        return out
+    seen.add(getter)
+    sn = getter.self_name
+    for n in ast.walk(canonical(getter).node):
+        if isinstance(n, ast.Attribute) and isinstance(n.value, ast.Name) and n.value.id == sn and isinstance(n.ctx, ast.Load):
+            name = n.attr
+            if name in NOT_FOLLOWED or name.startswith("__"):
+                continue
+            m = K.lookup(name)
+            if m and m[1] == "prop" and m[2].getter is not None:
+                out |= deps(K, m[2].getter, cache_field, seen)
+            elif m and m[1] == "method":
+                out |= deps(K, m[2], cache_field, seen)
+            elif name.startswith("_"):
+                out.add(name)
+        elif (
+            isinstance(n, ast.Call) and isinstance(n.func, ast.Name) and n.func.id == "getattr"
+            and len(n.args) >= 2 and isinstance(n.args[0], ast.Name) and n.args[0].id == sn
+            and isinstance(n.args[1], ast.Constant) and str(n.args[1].value).startswith("_")
+        ):
+            out.add(n.args[1].value)
+    out.discard(cache_field)
+    return {f for f in out if "_" + f[1:] == f and f[1:] not in NOT_FOLLOWED}
 
 
 def memo_getters(K):
